@@ -26,6 +26,9 @@ inductive Val where
   | bool (b : Bool)
   | err (t : Option String)      -- `none` = nil; `some tag` = a non-nil error (tag = FieldName of a FieldError, "" otherwise)
   | pair (a b : Val)
+  | ref (path : String)          -- a non-nil pointer to the record stored under `path`
+  | nilp                         -- a nil pointer / nil slice
+  | lst (path : String) (n : Nat)  -- a slice of n records stored under path[0] … path[n-1]
   | bad
 deriving DecidableEq, Repr, Inhabited
 
@@ -55,6 +58,10 @@ inductive Expr where
   | mul (a b : Expr)
   | mod (a b : Expr)
   | div (a b : Expr)
+  | sel (e : Expr) (n : String)    -- e.n for a pointer-valued e (nil: Go panics, here `bad`)
+  | idx (e : Expr) (i : Expr)      -- e[i] for a slice of records
+  | self                           -- the receiver itself
+  | pair (a b : Expr)              -- `return a, b`
   | call0 (f : String)
   | call1 (f : String) (a : Expr)
   | call2 (f : String) (a b : Expr)
@@ -74,6 +81,12 @@ inductive Prog where
   | assign2 (x y : String) (e : Expr)
   | check (tag : Option String) (body : Prog)
   | sub (x : String) (params : List String) (args : List Expr) (body : Prog)
+  | checkOn (tag : Option String) (recv : Expr) (params : List String) (args : List Expr) (body : Prog)
+  | subOn (x : String) (recv : Expr) (params : List String) (args : List Expr) (body : Prog)
+  | forEach (v : String) (coll : Expr) (body : Prog)   -- for _, v := range coll
+  | forIdx (i : String) (coll : Expr) (body : Prog)    -- for i := 0; i < len(coll); i++  /  for i := range coll
+  | brk
+  | cont
   | unknown (src : String)
 deriving Repr, Inhabited
 
@@ -88,6 +101,7 @@ structure Ctx where
   recvFlags : List String      -- flags set in the receiver's `validateOpts` (nil = none)
   paramFlags : List String     -- flags set in a `*ValidateOpts` parameter (nil = none)
   ext : List (String × Bool)   -- results of third-party predicates, keyed "fn:arg" (iso3166.Valid, iso4217.Lookup)
+  recv : String := ""          -- path of the current receiver ("" = the root record); fields are keyed by full path
 deriving Repr
 
 abbrev Locals := List (String × Val)
@@ -95,6 +109,8 @@ abbrev Locals := List (String × Val)
 inductive Sig where
   | next
   | ret (v : Val)
+  | brk
+  | cont
   | stuck (why : String)
 deriving DecidableEq, Repr
 
@@ -107,6 +123,10 @@ def update (l : Locals) (n : String) (v : Val) : Option Locals :=
   match l with
   | [] => none
   | (k, w) :: r => if k == n then some ((k, v) :: r) else (update r n v).map ((k, w) :: ·)
+
+def joinPath (p n : String) : String := if p == "" then n else p ++ "." ++ n
+
+def elemPath (p : String) (i : Nat) : String := p ++ "[" ++ toString i ++ "]"
 
 def hasFlag (cx : Ctx) (src n : String) : Bool :=
   if src == "recv" then cx.recvFlags.contains n else if src == "param" then cx.paramFlags.contains n else false
@@ -142,6 +162,8 @@ def builtin1 (ext : List (String × Bool)) (f : String) (a : Val) : Val :=
   | "isAlphanumeric", .str s => errIf (!s.all alnumRune)
   | "isUpperASCII", .str s => errIf (!s.all upperRune)
   | "len", .str s => .int (byteLen s)
+  | "len", .lst _ n => .int n
+  | "len", .nilp => .int 0
   | "utf8.RuneCountInString", .str s => .int s.length
   | "strconv.Atoi", .str s =>
       -- a range error also returns a non-nil error (with the clamped value)
@@ -161,6 +183,8 @@ def builtin1 (ext : List (String × Bool)) (f : String) (a : Val) : Val :=
       | none => .bad
   | "errors.New", _ => .err (some "")
   | "fmt.Errorf", _ => .err (some "")
+  | "usabbrev.Valid", .str s =>
+      if allAscii s then .bool (Gen.usabbrevKeys.contains (String.ofList (s.map toUpperAscii))) else .bad
   | "opt.recv.CheckTransactionCode", .int c =>
       -- the caller-supplied predicate; the correspondence stream installs "accept even codes only"
       errIf (c % 2 != 0)
@@ -179,6 +203,11 @@ def builtin2 (f : String) (a b : Val) : Val :=
   | "alphaField", .str s, .int n => if 0 ≤ n then .str (alphaField s n.toNat) else .bad
   | "numericField", .int v, .int n => if 0 ≤ n then .str (numericField v n.toNat) else .bad
   | "fmt.Errorf", _, _ => .err (some "")
+  | "leastSignificantDigits", .int v, .int n => if 0 ≤ n then .int (leastSignificantDigits v n.toNat) else .bad
+  | "strings.Trim", .str s, .str cut =>
+      .str (((s.dropWhile cut.contains).reverse.dropWhile cut.contains).reverse)
+  | "strings.EqualFold", .str a, .str b =>
+      if allAscii a && allAscii b then .bool (a.map toUpperAscii == b.map toUpperAscii) else .bad
   | "index", .str s, .int i =>
       if allAscii s && 0 ≤ i && i < s.length then .int ((s.getD i.toNat ' ').toNat) else .bad
   | "sliceFrom", .str s, .int lo => sliceAscii s lo s.length
@@ -208,6 +237,9 @@ def cmpVals (op : String) (a b : Val) : Val :=
       -- only comparisons with nil are meaningful
       if x.isSome && y.isSome then .bad
       else if op == "eq" then .bool (x.isSome == y.isSome) else if op == "ne" then .bool (x.isSome != y.isSome) else .bad
+  | .ref _, .err none | .lst _ _, .err none =>
+      if op == "eq" then .bool false else if op == "ne" then .bool true else .bad
+  | .nilp, .err none => if op == "eq" then .bool true else if op == "ne" then .bool false else .bad
   | _, _ => .bad
 
 def arith (op : String) (a b : Val) : Val :=
@@ -221,7 +253,18 @@ def arith (op : String) (a b : Val) : Val :=
   | _, _ => .bad
 
 def eval (cx : Ctx) (l : Locals) : Expr → Val
-  | .fld n => lookup cx.fields n
+  | .fld n => lookup cx.fields (joinPath cx.recv n)
+  | .self => .ref cx.recv
+  | .sel e n => match eval cx l e with
+      | .ref p => lookup cx.fields (joinPath p n)
+      | _ => .bad
+  | .idx e i => match eval cx l e, eval cx l i with
+      | .lst p n, .int k => if 0 ≤ k && k < n then .ref (elemPath p k.toNat) else .bad
+      | _, _ => .bad
+  | .pair a b => match eval cx l a, eval cx l b with
+      | .bad, _ => .bad
+      | _, .bad => .bad
+      | x, y => .pair x y
   | .var n => lookup l n
   | .glob _ => .bad
   | .int i => .int i
@@ -269,34 +312,65 @@ def eval (cx : Ctx) (l : Locals) : Expr → Val
 /-- leave a block: declarations made inside disappear, assignments to outer variables stay -/
 def scopeExit (outer new : Locals) : Locals := new.drop (new.length - outer.length)
 
-def exec (cx : Ctx) : Prog → Locals → Locals × Sig
-  | .skip, l => (l, .next)
-  | .ret e, l => (l, .ret (eval cx l e))
-  | .ite c t e, l =>
+/-- one loop: run `f` (the body) for every index, binding the loop variable; `continue` goes on, `break` leaves -/
+def iter (f : Locals → Locals × Sig) (mk : Nat → Val) (v : String) : List Nat → Locals → Locals × Sig
+  | [], l => (l, .next)
+  | i :: is, l =>
+      let r := f ((v, mk i) :: l)
+      match r.2 with
+      | .next => iter f mk v is (scopeExit l r.1)
+      | .cont => iter f mk v is (scopeExit l r.1)
+      | .brk => (scopeExit l r.1, .next)
+      | s => (scopeExit l r.1, s)
+
+/-- result of a call used as `if err := f(); err != nil { return [fieldError(tag,] err[)] }` -/
+def checkResult (tag : Option String) (l : Locals) (s : Sig) : Locals × Sig :=
+  match s with
+  | .ret (.err none) => (l, .next)
+  | .ret (.err (some t)) =>
+      -- `return err`: unchanged; `return fieldError(tag, err)`: a FieldError keeps its name; `return x.Error(tag, err)`
+      -- (tag written with a leading "!"): the new BatchError's name always wins
+      (l, .ret (.err (some (match tag with
+        | none => t
+        | some tg => if tg.startsWith "!" then (tg.drop 1).toString else if t == "" then tg else t))))
+  | _ => (l, .stuck "check")
+
+def subResult (x : String) (l : Locals) (s : Sig) : Locals × Sig :=
+  match s with
+  | .ret .bad => (l, .stuck "sub")
+  | .ret v => ((x, v) :: l, .next)
+  | _ => (l, .stuck "sub")
+
+def exec : Prog → Ctx → Locals → Locals × Sig
+  | .skip, _, l => (l, .next)
+  | .brk, _, l => (l, .brk)
+  | .cont, _, l => (l, .cont)
+  | .ret e, cx, l => (l, .ret (eval cx l e))
+  | .ite c t e, cx, l =>
       match eval cx l c with
-      | .bool true => let r := exec cx t l; (scopeExit l r.1, r.2)
-      | .bool false => let r := exec cx e l; (scopeExit l r.1, r.2)
+      | .bool true => let r := exec t cx l; (scopeExit l r.1, r.2)
+      | .bool false => let r := exec e cx l; (scopeExit l r.1, r.2)
       | _ => (l, .stuck "condition")
-  | .seq a b, l =>
-      match exec cx a l with
-      | (l1, .next) => exec cx b l1
+  | .seq a b, cx, l =>
+      match exec a cx l with
+      | (l1, .next) => exec b cx l1
       | r => r
-  | .block p, l => let r := exec cx p l; (scopeExit l r.1, r.2)
-  | .bind x e, l =>
+  | .block p, cx, l => let r := exec p cx l; (scopeExit l r.1, r.2)
+  | .bind x e, cx, l =>
       match eval cx l e with
       | .bad => (l, .stuck "bind")
       | v => ((x, v) :: l, .next)
-  | .bind2 x y e, l =>
+  | .bind2 x y e, cx, l =>
       match eval cx l e with
       | .pair a b => ((y, b) :: (x, a) :: l, .next)
       | _ => (l, .stuck "bind2")
-  | .assign x e, l =>
+  | .assign x e, cx, l =>
       match eval cx l e with
       | .bad => (l, .stuck "assign")
       | v => match update l x v with
         | some l1 => (l1, .next)
         | none => (l, .stuck "assign")
-  | .assign2 x y e, l =>
+  | .assign2 x y e, cx, l =>
       match eval cx l e with
       | .pair a b =>
           let l1 := if x == "_" then some l else update l x a
@@ -304,19 +378,36 @@ def exec (cx : Ctx) : Prog → Locals → Locals × Sig
           | some l2 => (l2, .next)
           | none => (l, .stuck "assign2")
       | _ => (l, .stuck "assign2")
-  | .check tag body, l =>
-      match (exec cx body []).2 with
-      | .ret (.err none) => (l, .next)
-      | .ret (.err (some t)) => (l, .ret (.err (some (if t == "" then tag.getD t else t))))
-      | _ => (l, .stuck "check")
-  | .sub x params args body, l =>
+  | .check tag body, cx, l => checkResult tag l (exec body cx []).2
+  | .sub x params args body, cx, l =>
       let vals := args.map (eval cx l)
       if vals.contains .bad || params.length != vals.length then (l, .stuck "sub args")
-      else match (exec cx body (params.zip vals).reverse).2 with
-        | .ret .bad => (l, .stuck "sub")
-        | .ret v => ((x, v) :: l, .next)
-        | _ => (l, .stuck "sub")
-  | .unknown _, l => (l, .stuck "unknown")
+      else subResult x l (exec body cx (params.zip vals).reverse).2
+  | .checkOn tag recv params args body, cx, l =>
+      let vals := args.map (eval cx l)
+      match eval cx l recv with
+      | .ref p =>
+          if vals.contains .bad || params.length != vals.length then (l, .stuck "call args")
+          else checkResult tag l (exec body { cx with recv := p } (params.zip vals).reverse).2
+      | _ => (l, .stuck "nil receiver")
+  | .subOn x recv params args body, cx, l =>
+      let vals := args.map (eval cx l)
+      match eval cx l recv with
+      | .ref p =>
+          if vals.contains .bad || params.length != vals.length then (l, .stuck "call args")
+          else subResult x l (exec body { cx with recv := p } (params.zip vals).reverse).2
+      | _ => (l, .stuck "nil receiver")
+  | .forEach v coll body, cx, l =>
+      match eval cx l coll with
+      | .lst p n => iter (fun l' => exec body cx l') (fun i => .ref (elemPath p i)) v (List.range n) l
+      | .nilp => (l, .next)
+      | _ => (l, .stuck "range")
+  | .forIdx i coll body, cx, l =>
+      match eval cx l coll with
+      | .lst _ n => iter (fun l' => exec body cx l') (fun k => .int k) i (List.range n) l
+      | .nilp => (l, .next)
+      | _ => (l, .stuck "range")
+  | .unknown _, _, l => (l, .stuck "unknown")
 
 inductive Outcome where
   | accept
@@ -326,7 +417,7 @@ deriving DecidableEq, Repr
 
 /-- run a validator function on a receiver -/
 def run (cx : Ctx) (p : Prog) : Outcome :=
-  match (exec cx p []).2 with
+  match (exec p cx []).2 with
   | .ret (.err none) => .accept
   | .ret (.err (some t)) => .reject t
   | _ => .stuck
@@ -342,8 +433,8 @@ def relaxFlags : List String :=
 
 def known1 : List String := ["isAlphanumeric", "isUpperASCII", "len", "utf8.RuneCountInString", "strconv.Atoi", "strconv.Itoa",
   "CalculateCheckDigit", "parseStringField", "strings.TrimSpace", "strings.ToUpper", "iso3166.Valid", "iso4217.Lookup",
-  "errors.New", "fmt.Errorf", "opt.recv.CheckTransactionCode", "dict.changeCodeDict", "dict.returnCodeDict"]
-def known2 : List String := ["stringField", "alphaField", "numericField", "fmt.Errorf", "index", "sliceFrom"]
+  "errors.New", "fmt.Errorf", "opt.recv.CheckTransactionCode", "dict.changeCodeDict", "dict.returnCodeDict", "usabbrev.Valid"]
+def known2 : List String := ["stringField", "alphaField", "numericField", "fmt.Errorf", "index", "sliceFrom", "strings.EqualFold", "strings.Trim", "leastSignificantDigits"]
 def known3 : List String := ["slice", "fmt.Errorf"]
 
 def exprKnown : Expr → Bool
@@ -353,6 +444,8 @@ def exprKnown : Expr → Bool
   | .nonNil e | .not e | .wrapErr _ e => exprKnown e
   | .and a b | .or a b | .eq a b | .ne a b | .lt a b | .le a b | .gt a b | .ge a b
   | .add a b | .sub a b | .mul a b | .mod a b | .div a b => exprKnown a && exprKnown b
+  | .sel e _ => exprKnown e
+  | .idx e i | .pair e i => exprKnown e && exprKnown i
   | .call1 f a => known1.contains f && exprKnown a
   | .call2 f a b => known2.contains f && exprKnown a && exprKnown b
   | .call3 f a b c => known3.contains f && exprKnown a && exprKnown b && exprKnown c
@@ -367,6 +460,9 @@ def progKnown : Prog → Bool
   | .block p => progKnown p
   | .check _ b => progKnown b
   | .sub _ _ args b => args.all exprKnown && progKnown b
+  | .checkOn _ r _ args b | .subOn _ r _ args b => exprKnown r && args.all exprKnown && progKnown b
+  | .forEach _ c b | .forIdx _ c b => exprKnown c && progKnown b
+  | .brk | .cont => true
 
 /-- no reference to a relaxation flag -/
 def exprNoRelax : Expr → Bool
@@ -374,19 +470,23 @@ def exprNoRelax : Expr → Bool
   | .nonNil e | .not e | .wrapErr _ e => exprNoRelax e
   | .and a b | .or a b | .eq a b | .ne a b | .lt a b | .le a b | .gt a b | .ge a b
   | .add a b | .sub a b | .mul a b | .mod a b | .div a b => exprNoRelax a && exprNoRelax b
+  | .sel e _ => exprNoRelax e
+  | .idx e i | .pair e i => exprNoRelax e && exprNoRelax i
   | .call1 _ a => exprNoRelax a
   | .call2 _ a b => exprNoRelax a && exprNoRelax b
   | .call3 _ a b c => exprNoRelax a && exprNoRelax b && exprNoRelax c
   | _ => true
 
 def progNoRelax : Prog → Bool
-  | .skip | .unknown _ => true
+  | .skip | .unknown _ | .brk | .cont => true
   | .ret e | .bind _ e | .bind2 _ _ e | .assign _ e | .assign2 _ _ e => exprNoRelax e
   | .ite c t e => exprNoRelax c && progNoRelax t && progNoRelax e
   | .seq a b => progNoRelax a && progNoRelax b
   | .block p => progNoRelax p
   | .check _ b => progNoRelax b
   | .sub _ _ args b => args.all exprNoRelax && progNoRelax b
+  | .checkOn _ r _ args b | .subOn _ r _ args b => exprNoRelax r && args.all exprNoRelax && progNoRelax b
+  | .forEach _ c b | .forIdx _ c b => exprNoRelax c && progNoRelax b
 
 /-- the expression is syntactically a non-nil error -/
 def isErrExpr : Expr → Bool
@@ -404,6 +504,7 @@ def rejectOnly : Prog → Bool
   | .ite _ t e => rejectOnly t && rejectOnly e
   | .seq a b => rejectOnly a && rejectOnly b
   | .block p => rejectOnly p
+  | .forEach _ _ b | .forIdx _ _ b => rejectOnly b
   | .unknown _ => false
   | _ => true
 
@@ -413,6 +514,7 @@ def noAssign : Prog → Bool
   | .ite _ t e => noAssign t && noAssign e
   | .seq a b => noAssign a && noAssign b
   | .block p => noAssign p
+  | .forEach _ _ _ | .forIdx _ _ _ | .brk | .cont => false
   | _ => true
 
 def isSkip : Prog → Bool
@@ -425,6 +527,8 @@ def exprNoVar : Expr → Bool
   | .nonNil e | .not e | .wrapErr _ e => exprNoVar e
   | .and a b | .or a b | .eq a b | .ne a b | .lt a b | .le a b | .gt a b | .ge a b
   | .add a b | .sub a b | .mul a b | .mod a b | .div a b => exprNoVar a && exprNoVar b
+  | .sel e _ => exprNoVar e
+  | .idx e i | .pair e i => exprNoVar e && exprNoVar i
   | .call1 _ a => exprNoVar a
   | .call2 _ a b => exprNoVar a && exprNoVar b
   | .call3 _ a b c => exprNoVar a && exprNoVar b && exprNoVar c
@@ -448,7 +552,14 @@ def isRetNil : Prog → Bool
   | .ret .nil => true
   | _ => false
 
-/-- the shapes under which a relaxation flag may occur: `if !flag { checks that can only reject }` and
+/-- a condition that switching on relaxation flags can only turn to `false`: `!flag`, and conjunctions of such a
+condition with flag-free ones (`!flag && a != b`, `a != b && !flag`) -/
+def antiCond : Expr → Bool
+  | .not (.flag _ n) => relaxFlags.contains n
+  | .and a b => (antiCond a && exprNoRelax b) || (exprNoRelax a && antiCond b)
+  | _ => false
+
+/-- the shapes under which a relaxation flag may occur: `if !flag [&& cond] { checks that can only reject }` and
 `if flag { return nil }`; everything else must not mention a relaxation flag -/
 def relaxOK : Prog → Bool
   | .skip => true
@@ -458,11 +569,13 @@ def relaxOK : Prog → Bool
   | .block p => relaxOK p
   | .check _ b => relaxOK b
   | .sub _ _ args b => args.all exprNoRelax && progNoRelax b
+  | .checkOn _ r _ args b => exprNoRelax r && args.all exprNoRelax && relaxOK b
+  | .subOn _ r _ args b => exprNoRelax r && args.all exprNoRelax && progNoRelax b
+  | .forEach _ c b | .forIdx _ c b => exprNoRelax c && relaxOK b
+  | .brk | .cont => true
   | .ite c t e =>
+      if antiCond c then isSkip e && rejectOnly t && noAssign t && relaxOK t else
       match c with
-      | .not (.flag _ n) =>
-          if relaxFlags.contains n then isSkip e && rejectOnly t && noAssign t && relaxOK t
-          else relaxOK t && relaxOK e
       | .flag _ n =>
           if relaxFlags.contains n then isRetNil t && relaxOK e
           else relaxOK t && relaxOK e
